@@ -43,6 +43,9 @@ type c17Call struct {
 	hasOpt bool
 }
 
+// c17Shared: one map handed to Params options of several tests (reset at the start of every execution)
+var c17Shared map[string]any
+
 func c17Opt(i int, opt int, t *c17Test) []z.TestOption {
 	switch opt {
 	case 1:
@@ -57,6 +60,11 @@ func c17Opt(i int, opt int, t *c17Test) []z.TestOption {
 	case 4:
 		t.params = map[string]any{"k": i}
 		return []z.TestOption{z.Params(map[string]any{"k": i})}
+	case 5:
+		// defaults first, the caller's own value after them (the reusable-test pattern): the later option counts,
+		// and the map given to the earlier one — which other tests may hold too — is the caller's and stays as it was
+		t.params = map[string]any{"k": i}
+		return []z.TestOption{z.Params(c17Shared), z.Params(map[string]any{"k": i})}
 	}
 	return nil
 }
@@ -200,6 +208,7 @@ func c17StringScenario(maxLen int, first int) mc.Scenario {
 		zh.Install(x, zh.PoolLIFO, zh.OrderSorted)
 		s := z.String()
 		m := &c17StrModel{}
+		c17Shared = map[string]any{"shared": true}
 		var chain []string
 		n := 1 + x.Choose(maxLen, "chainLength")
 		for i := 0; i < n; i++ {
@@ -210,13 +219,18 @@ func c17StringScenario(maxLen int, first int) mc.Scenario {
 			c := calls[ci]
 			opt := 0
 			if c.hasOpt {
-				opt = x.Choose(5, "option")
+				opt = x.Choose(6, "option")
 			}
 			chain = append(chain, fmt.Sprintf("%s/opt%d", c.name, opt))
 			s = c.apply(s, m, opt)
 		}
 		out := &mc.Outcome{Nontrivial: true, Sig: strings.Join(chain, ".")}
 		out.Sample = map[string]any{"chain": chain}
+		if fmt.Sprint(c17Shared) != "map[shared:true]" {
+			x.Note("chain: z.String().%s", strings.Join(chain, "."))
+			out.Viol = append(out.Viol, &mc.Violation{Key: "C17:option-modified-callers-map", What: "a Params option changed the map the caller passed to another Params option", Expected: "map[shared:true]", Observed: fmt.Sprint(c17Shared)})
+			return out
+		}
 		for _, subj := range c17Subjects {
 			for mode := 0; mode < 2; mode++ {
 				var l z.ZogIssueList
@@ -564,7 +578,7 @@ func c17Len(tier string) int {
 func init() {
 	Register(&Prop{
 		ID:    "C17",
-		Rule:  "one execution = one chain of ≤L builder calls on z.String() from {Min, Max, Len, HasPrefix, ContainsDigit, Not().Len, Not().HasPrefix, Not().ContainsDigit, Not().Contains, degenerate parameters Contains(empty), Not().Contains(empty), Not().HasPrefix(empty), Min(0), Not().Len(0), Not().OneOf(empty list), TestFunc} × option {none, Message, IssueCode, IssuePath, Params} and {Required, Required(Message), Optional, Default ×2, Catch ×2}, built through the real API and run on 7 subjects in both modes against a list-based model of what each call means; plus Int chains (tests × options, modifiers), plus one schema object at two places (two fields, field + slice element, field + behind pointer) vs independent copies, plus WithCoercer locality (own schema; through Ptr); every chain is non-trivial; distinct = distinct chains",
+		Rule:  "one execution = one chain of ≤L builder calls on z.String() from {Min, Max, Len, HasPrefix, ContainsDigit, Not().Len, Not().HasPrefix, Not().ContainsDigit, Not().Contains, degenerate parameters Contains(empty), Not().Contains(empty), Not().HasPrefix(empty), Min(0), Not().Len(0), Not().OneOf(empty list), TestFunc} × option {none, Message, IssueCode, IssuePath, Params, Params given twice (a shared map, then the test's own)} and {Required, Required(Message), Optional, Default ×2, Catch ×2}, built through the real API and run on 7 subjects in both modes against a list-based model of what each call means; plus Int chains (tests × options, modifiers), plus one schema object at two places (two fields, field + slice element, field + behind pointer) vs independent copies, plus WithCoercer locality (own schema; through Ptr); every chain is non-trivial; distinct = distinct chains",
 		Floor: 50,
 		Bound: func(tier string) string { return fmt.Sprintf("all String chains of length ≤%d, all Int chains of length ≤3", c17Len(tier)) },
 		Assumptions: []string{"Not() is followed only by the methods of the interface it returns (what the type system permits)", "messages are compared only where a Message option was given"},
